@@ -34,7 +34,10 @@ EXPLANATION = (
   "CellError. R4: _use_node records the dependency edge of a read before the read can be aborted "
   "(the nested _recompute raising OrderError): the cell the cycle detector refuses to evaluate is "
   "never retried, so an edge recorded only after the read would be missing for it and the cell "
-  "would keep its CircularRefError after the cycle is broken elsewhere. Not decided: termination "
+  "would keep its CircularRefError after the cycle is broken elsewhere. R5: _recompute_step forgets "
+  "a node's recorded lookups (reset_dependencies) only on the first visit of the node in a round, "
+  "before the scan: what a cell recorded in an attempt aborted by OrderError survives until the "
+  "visit that refuses it as circular. Not decided: termination "
   "(the scheduler's progress argument), and the exact set of cells reported.")
 
 LOCKS = "_locked_cells"
@@ -48,6 +51,7 @@ def check(run, repo, tier):
   r2_cycle_flag(run, w, sc)
   r3_unwrapped(run, w)
   r4_edge_before_read(run, w)
+  r5_reset_once_per_round(run, w, sc)
 
 
 # ------------------------------------------------------------------------------------------
@@ -503,6 +507,56 @@ def r4_edge_before_read(run, w):
          "reachable before the edge was recorded")
 
 
+# ------------------------------------------------------------------------------------------
+def r5_reset_once_per_round(run, w, sc):
+  R5 = run.rule("C18-R5", "_recompute_step forgets the lookups recorded for a node's rows "
+                "(dep_graph.reset_dependencies) once per node and round, before the scan -- never "
+                "between an aborted attempt and the visit that refuses the cell as circular",
+                floor=2)
+  fn = sc.fn
+  ex = sc.ex
+  cfg = fn.cfg
+  head = sc.head(cfg)
+  body = sc.body_nodes(cfg)
+  resets = [(n, c) for (n, c, nm) in fn.calls() if endswith(nm, "reset_dependencies")]
+  need(resets, "%s: dep_graph.reset_dependencies call not found" % STEP)
+  seen_atom = "%s in self._recompute_done_map" % sc.p_node
+  def creates(s_):
+    """facts established by creating the node's entry of the done map"""
+    if isinstance(s_, ast.Assign):
+      for t in s_.targets:
+        if isinstance(t, ast.Subscript) and \
+            endswith(dotted(ex.expand(t.value)), "_recompute_done_map") and \
+            text(t.slice) == sc.p_node:
+          return {seen_atom: True}
+      v = ex.expand(s_.value)
+      if isinstance(v, ast.Call) and isinstance(v.func, ast.Attribute) and \
+          v.func.attr == "setdefault" and endswith(dotted(v.func.value), "_recompute_done_map"):
+        return {seen_atom: True}
+    return {}
+  fr = Facts(cfg, {seen_atom}, ex=ex, on_assign=creates)
+  seen = fr.run([(cfg.entry.id, {})], stop={head})
+  for (n, c) in resets:
+    a0 = c.args[0] if c.args else None
+    run.ob(R5, fn.qualname, "self.dep_graph.reset_dependencies(node, <rows>)", "the lookups "
+           "forgotten are those of the node being visited", a0 is not None and
+           ex.norm(a0) == sc.p_node, fi=fn.fi, node=c, nontrivial=False)
+    ok = n.id not in body and n.id in seen and \
+        all(f.get(seen_atom) is False for f in seen[n.id])
+    # ... and the node's entry of the done map exists by the time the scan starts, so that the next
+    # visit of this round does not reset again
+    at_head = seen.get(head, [])
+    ok = ok and bool(at_head) and all(f.get(seen_atom) is True for f in at_head)
+    run.ob(R5, fn.qualname, "if node not in self._recompute_done_map: reset_dependencies(...); "
+           "create the entry", "what a cell recorded during an attempt aborted by OrderError is "
+           "still there when the cell is met again and refused as circular (it is not evaluated "
+           "again, so nothing would re-record it): the cells of a cycle keep depending on what "
+           "they read", ok, fi=fn.fi, node=c,
+           witness=None if ok else ("the reset runs inside the scan (per cell)" if n.id in body else
+                                    "the reset is not limited to the first visit of the node in "
+                                    "a round"))
+
+
 EN = "sandbox/grist/engine.py"
 VARIANTS = [
   ("lock-not-in-item", EN,
@@ -568,6 +622,10 @@ VARIANTS = [
     if self._is_current_node_formula:
       # Add an edge to indicate that the node being computed depends on the node passed in.""",
    "C18-R4"),
+  ("lookups-forgotten-on-every-visit", EN,
+   "    if node not in self._recompute_done_map:\n      # Before starting to evaluate a formula",
+   "    if node not in self._recompute_done_map or allow_evaluation:\n      # Before starting to evaluate a formula",
+   "C18-R5"),
   ("circular-error-wrapped", "sandbox/grist/column.py",
    """        raise raw.error
 """,
